@@ -16,7 +16,7 @@ ASSUMPTIONS = [
     "invalid enum values / names must raise some exception and leave the previous value (the statement names the library error only for fixed ranges)",
     "constructor keywords that collide with common module attributes (finetune, relative_note, scale) also set those; only the controller is judged here",
 ]
-REQUIRED_COUNTERS = ["defaults_checked", "rejections_observed", "inrange_readbacks"]
+REQUIRED_COUNTERS = ["defaults_checked", "rejections_observed", "inrange_readbacks", "hostile_loads"]
 
 
 def plan(tier, seed):
@@ -207,6 +207,10 @@ def failed_loads(res):
 def run_shard(spec_, res):
     rng = random.Random(spec_["seed"])
     failed_loads(res)
+    # other instances are used (and abused) first: odd files, MetaModules mapping onto every controller kind, in-place
+    # payload edits, failed constructions.  Defaults and validation of FRESH modules are probed afterwards.
+    from .. import hostile
+    hostile.run(res, "quick", seed=spec_["shard"])
     for T in spec_["types"]:
         run_type(res, T, rng, spec_["tier"])
         res.count("types_visited")
